@@ -1,7 +1,14 @@
 """C19 implementation runner: builds the grammars and the prediction layer of a
 case, feeds it the case's tensor and reports layout, weights, start
-probabilities, membership, encodings, log-probabilities and probabilities."""
+probabilities, membership, encodings, log-probabilities and probabilities.
+
+Cases with a "gk" field (grammar kind "uhand" / "udfta") drive the U layer on
+unambiguous grammars with several alternatives per (non-terminal, primitive)
+and several start symbols; the runner serialises the implementation's own
+rule tables (wire format of Gram/U.v, as harness/props/c04_impl.py) so that
+the model is run on them."""
 import json
+import random
 import warnings
 
 import numpy as np
@@ -76,6 +83,8 @@ def fl(x):
 
 
 def impl(case):
+    if case.get("gk"):
+        return impl_multi(case)
     gparams, absid, progs = case["data"]
     isu = bool(case["u"])
     torch.manual_seed(0)
@@ -151,6 +160,171 @@ def impl(case):
                     lp = fl(lg.log_probability(p).item())
                     pr = fl(pg.probability(p))
                     res.append([1, marks, enc_ok, lp, pr])
+                except Exception as e:   # noqa
+                    res.append([2, "%s: %s" % (type(e).__name__, str(e)[:200])])
+            o["progs"] = res
+    out["grammars"] = gobs
+    return out
+
+
+# ----------------------------------------------------------------------------
+# U layers on unambiguous grammars with several alternatives / start symbols
+# ----------------------------------------------------------------------------
+def dec(w):
+    """inverse of the generic state encoder enc of props/c04_impl.py (lists come back as tuples)"""
+    from synth.syntax.grammars.grammar import NGram
+    t = w[0]
+    if t == 0:
+        return w[1]
+    if t == 1:
+        return None
+    if t == 2:
+        return bytes(w[1:]).decode("utf8")
+    if t == 3:
+        return tuple(dec(e) for e in w[1:])
+    if t == 4:
+        return NGram(w[1], [dec(e) for e in w[2:]])
+    if t == 5:
+        return O.sym(w[1])
+    if t == 6:
+        return O.ty(w[1])
+    if t == 7:
+        return bool(w[1])
+    raise ValueError("cannot decode state %r" % (w,))
+
+
+def unt(w):
+    return (O.ty(w[0]), dec(w[1]))
+
+
+def build_hand(gw, clean):
+    """UCFG(starts, rules, clean) from the wire table of the case."""
+    table, starts = gw
+    rules = {}
+    for ntw, rs in table:
+        rules[unt(ntw)] = {O.sym(sw): [[unt(a) for a in alt] for alt in alts] for sw, alts in rs}
+    return UCFG({unt(s) for s in starts}, rules, clean=bool(clean))
+
+
+def build_dfta(gp):
+    """UCFG.from_DFTA / from_DFTA_with_ngrams of the sharpened automaton of a depth-bounded CFG."""
+    from synth.filter.constraints.dfta_constraints import add_dfta_constraints
+    prims, forb, req, md, mv, ng, ct, constraint, ngrams = gp
+    dsl = build_dsl(prims, forb)
+    cfg = CFG.depth_constraint(dsl, O.ty(req), md, mv, ng, False, {O.ty(t) for t in ct})
+    try:
+        dfta = add_dfta_constraints(cfg, [constraint], progress=False)
+        if ngrams:
+            return UCFG.from_DFTA_with_ngrams(dfta, ngrams)
+        return UCFG.from_DFTA(dfta)
+    except Exception as e:      # sharpening and the conversion are the subjects of C05 / C06, not of this check
+        raise SkipCase("sharpening failed (%s)" % type(e).__name__)
+
+
+class SkipCase(Exception):
+    pass
+
+
+def impl_multi(case):
+    from props.c04_impl import enc, u_nt, u_table
+    from props import c19 as C
+    gws, absid, progs = case["data"]
+    torch.manual_seed(0)
+    np.random.seed(0)
+    grammars = []
+    try:
+        for gw in gws:
+            grammars.append(build_hand(gw, case.get("clean", 1)) if case["gk"] == "uhand" else build_dfta(gw))
+    except KeyError:
+        # CFG.depth_constraint raises KeyError on an empty language (C01 finding c01_empty_language_raises)
+        return {"skipped": "grammar construction raised KeyError (empty language)"}
+    except SkipCase as e:
+        return {"skipped": str(e)}
+    if any(len(g.rules) == 0 or len(g.starts) == 0 for g in grammars):
+        return {"skipped": "empty grammar"}
+    if len({g.type_request for g in grammars}) != len(grammars):
+        return {"skipped": "two grammars of the layer report the same type request"}
+    absf = ABSTRACTIONS[case["absfun"]]
+    layer = UGrammarPredictorLayer(4, grammars, absf, case["v"])
+    out = {}
+    out["tables"] = [[u_table(g), [u_nt(s) for s in g.starts]] for g in grammars]
+    out["out_size"] = int(layer.output_size)
+    out["forward_size"] = int(layer(torch.zeros((4,))).shape[-1])
+    out["layout"] = [[enc(k), int(st), int(ln), [[O.sym_wire(p), int(i)] for p, i in d.items()]]
+                     for k, (st, ln, d) in layer.abs2index.items()]
+    out["start_abs"] = [enc(a) for a in layer.all_starts_abs]
+    nstarts = len(layer.all_starts_abs)
+    tensor = case["tensor"]
+    if "recipe" in tensor:
+        # the layout is only known here: the values are drawn from the recipe's seed over the
+        # sorted (key, primitive) pairs, which does not depend on dict / set iteration orders
+        tkind, seed = tensor["recipe"]
+        pairs = sorted(([kw, pw] for kw, _, _, d in out["layout"] for pw, _ in d), key=json.dumps)
+        by_key = {json.dumps(kw): [pw for pw, _ in d] for kw, _, _, d in out["layout"]}
+        nd = []
+        for g in grammars:
+            for S_ in g.rules:
+                der = [json.dumps(O.sym_wire(P)) for P in g.rules[S_] if isinstance(P, Primitive)]
+                if not der:
+                    continue
+                kw = enc(layer.real2abs[S_])
+                for pw in by_key[json.dumps(kw)]:
+                    if json.dumps(pw) not in der and [kw, pw] not in nd:
+                        nd.append([kw, pw])
+        nd.sort(key=json.dumps)
+        skeys = sorted(out["start_abs"], key=json.dumps)
+        tensor = C.gen_tensor_lists(random.Random(seed), tkind, pairs, nd, skeys)
+        out["tensor"] = tensor
+    pv = {jkey([k, p]): val for k, p, val in tensor["pairs"]}
+    sv = {jkey(k): val for k, val in tensor["starts"]}
+    x = torch.zeros((layer.output_size,), dtype=torch.float32)
+    for k, (st, ln, d) in layer.abs2index.items():
+        kw = enc(k)
+        for p, i in d.items():
+            x[st + i] = pv.get(jkey([kw, O.sym_wire(p)]), 0.0)
+    for i, a in enumerate(layer.all_starts_abs):
+        x[layer.output_size - nstarts + i] = sv.get(jkey(enc(a)), 0.0)
+    gobs = []
+    for g, plist in zip(grammars, progs):
+        o = {"treq": O.ty_wire(g.type_request)}
+        gobs.append(o)
+        with warnings.catch_warnings():
+            warnings.simplefilter("ignore")
+            try:
+                lg = layer.tensor2log_prob_grammar(x.clone(), g.type_request, total_variable_order=bool(case["tvo"]))
+                pg = lg.to_prob_u_grammar()
+            except Exception as e:   # noqa
+                o["crash"] = "%s: %s" % (type(e).__name__, str(e)[:200])
+                continue
+            nts = []
+            for snt in g.rules:
+                rules = []
+                for p in g.rules[snt]:
+                    alts = [[[u_nt(a) for a in alt], fl(pg.probabilities[snt][p][alt]), fl(lg.tags[snt][p][alt].item())]
+                            for alt in pg.probabilities[snt][p]]
+                    rules.append([O.sym_wire(p), alts])
+                nts.append([u_nt(snt), enc(layer.real2abs[snt]), rules])
+            o["nts"] = nts
+            o["starts"] = [[u_nt(s), fl(w)] for s, w in pg.start_tags.items()]
+            starts = list(g.starts)
+            res = []
+            for w in plist:
+                p = O.prog(w)
+                if p not in g:
+                    res.append([0])
+                    continue
+                try:
+                    enc_t = layer.encode(p, g.type_request)
+                    vals = enc_t.tolist()
+                    marks = [i for i, b in enumerate(vals) if b != 0.0]
+                    enc_ok = 1 if (len(vals) == layer.output_size and all(b in (0.0, 1.0) for b in vals)) else 0
+                    lp = fl(lg.log_probability(p).item())
+                    pr = fl(pg.probability(p))
+                    # with an explicit start symbol (the one that derives the program)
+                    s0 = [s for s in starts if g.__contains_rec__(p, s, g.start_information())[0]][0]
+                    lp_at = fl(lg.log_probability(p, s0).item())
+                    pr_at = fl(pg.probability(p, s0))
+                    res.append([1, marks, enc_ok, lp, pr, u_nt(s0), lp_at, pr_at])
                 except Exception as e:   # noqa
                     res.append([2, "%s: %s" % (type(e).__name__, str(e)[:200])])
             o["progs"] = res
